@@ -97,6 +97,7 @@ pub fn probe(args: &[String]) -> i32 {
                 Verdict::Fail { .. } => 3,
             }
         }
+        Some("c10-capi") => c10::probe_capi_encoders(&args[1..]),
         Some("capi") => c17::child(&args[1..]),
         Some("capi-one") => c17::child_one(&args[1..]),
         Some("null-sweep") => c18::child_null_sweep(),
